@@ -20,6 +20,8 @@ type propResult struct {
 	pool     *SolverPool
 	wall     float64
 	lemmaCnt int
+	notes    []string
+	engine   *Engine
 }
 
 func clauseTagged(c *Contract, prop string) bool {
@@ -34,7 +36,81 @@ func clauseTagged(c *Contract, prop string) bool {
 }
 
 func runProperty(e *Engine, o runOpts) *propResult {
-	res := &propResult{}
+	res := runPropertyOnce(e, o)
+	if len(res.engErrs) > 0 {
+		return res
+	}
+	// Which failures belong to this property? Obligations of clauses tagged with it, of untagged (shared) clauses,
+	// panic / precondition obligations (C06), lemmas. Failing clauses that belong only to OTHER properties are
+	// withdrawn from the assumptions and the check is repeated: if everything of this property still discharges,
+	// its proof does not depend on them and the property holds on this tree.
+	var foreign []*Obligation
+	own := 0
+	for _, ob := range res.obls {
+		if ob.Vacuity || strings.HasSuffix(ob.Name, "!unrestricted") || ob.Status == "unsat" {
+			continue
+		}
+		if obligationOwned(ob, o.prop) {
+			own++
+		} else {
+			foreign = append(foreign, ob)
+		}
+	}
+	if own > 0 || len(foreign) == 0 {
+		res.obls = filterOwned(res.obls, o.prop)
+		return res
+	}
+	for _, ob := range foreign {
+		lbl := ob.Label
+		if i := strings.Index(lbl, "@"); i >= 0 {
+			lbl = lbl[:i]
+		}
+		droppedClauses[ob.Func+"."+lbl] = true
+		res.notes = append(res.notes, fmt.Sprintf("clause %s.%s (properties %v) is not discharged on this tree; it is not part of %s and was withdrawn from the assumptions for a second pass", ob.Func, ob.Label, ob.Tags, o.prop))
+	}
+	e2, err := load(o)
+	if err != nil {
+		res.engErrs = append(res.engErrs, "reload: "+err.Error())
+		return res
+	}
+	res2 := runPropertyOnce(e2, o)
+	res2.notes = res.notes
+	res2.obls = filterOwned(res2.obls, o.prop)
+	res2.engine = e2
+	return res2
+}
+
+// obligationOwned: does a failure of this obligation count against property prop?
+func obligationOwned(ob *Obligation, prop string) bool {
+	switch ob.Kind {
+	case "panic":
+		return prop == "C06"
+	case "lemma", "vacuity", "requires":
+		return true
+	}
+	if len(ob.Tags) == 0 {
+		return true
+	}
+	for _, t := range ob.Tags {
+		if t == prop {
+			return true
+		}
+	}
+	return false
+}
+
+func filterOwned(obls []*Obligation, prop string) []*Obligation {
+	var out []*Obligation
+	for _, ob := range obls {
+		if ob.Status == "unsat" || ob.Vacuity || obligationOwned(ob, prop) {
+			out = append(out, ob)
+		}
+	}
+	return out
+}
+
+func runPropertyOnce(e *Engine, o runOpts) *propResult {
+	res := &propResult{engine: e}
 	prop := o.prop
 	genPanics := prop == "C06"
 	todo := []string{}
@@ -129,6 +205,12 @@ func (e *Engine) lemmaUnit(prop string) *Unit {
 
 func reportProperty(e *Engine, o runOpts, res *propResult) int {
 	prop := o.prop
+	if res.engine != nil {
+		e = res.engine
+	}
+	for _, n := range res.notes {
+		fmt.Println("NOTE:", n)
+	}
 	seed, _ := strconv.Atoi(os.Getenv("VERIF_SEED"))
 	evPath := filepath.Join(o.verifDir, "evidence", prop+".json")
 	os.MkdirAll(filepath.Dir(evPath), 0o755)
